@@ -109,7 +109,7 @@ InitState(h) ==
    vote |-> [c \in C |-> 0], kf |-> [c \in C |-> 0], quot |-> [c \in C |-> 0], tc |-> [c \in C |-> 0],
    quota |-> 0, nt |-> 0, surplus |-> 0, residual |-> 0, votes |-> 0, va |-> 0, tx |-> 0,
    bal |-> [j \in 1 .. Len(h.lines) |-> [ix |-> 0, w |-> h.S]],
-   rounds |-> <<>>, q |-> <<>>, q2 |-> <<>>, cur |-> 0, flag |-> FALSE, last |-> 0, istat |-> "", logs |-> <<>>, devs |-> {}, hist |-> <<>>]
+   rounds |-> <<>>, q |-> <<>>, q2 |-> <<>>, cur |-> 0, flag |-> FALSE, last |-> 0, istat |-> "", logs |-> <<>>, its |-> <<>>, devs |-> {}, hist |-> <<>>]
 
 (* first-preference tallies: `for b in E.ballots: b.topCand.vote += b.vote' *)
 FirstPrefs(s) == [c \in CandS(s) |-> Sum([j \in 1 .. NLines(s) |-> IF s.h.lines[j].r[1] = c THEN s.h.lines[j].m * s.h.S ELSE 0])]
